@@ -4069,8 +4069,23 @@ func (c *BytecodeCompiler) unaryPattern(pat *ast.UnaryExpressionNode) {
 func (c *BytecodeCompiler) binaryPatternNode(pat *ast.BinaryPatternNode, valType types.Type) {
 	var leftLocals, rightLocals []string
 	if pat.Op.Type == token.OR_OR {
-		patternLocals(pat.Left, &leftLocals)
-		patternLocals(pat.Right, &rightLocals)
+		var allLeftLocals, allRightLocals []string
+		patternLocals(pat.Left, &allLeftLocals)
+		patternLocals(pat.Right, &allRightLocals)
+		// variables that have already been bound by an earlier part of the pattern keep their value
+		currentScope := c.scopes.last()
+		for _, name := range allLeftLocals {
+			if _, ok := currentScope.localTable[name]; !ok {
+				leftLocals = append(leftLocals, name)
+			}
+		}
+		// a variable bound by both alternatives keeps the value given by the left one
+		// when the right alternative is skipped, only the variables exclusive to the right one become nil
+		for _, name := range allRightLocals {
+			if _, ok := currentScope.localTable[name]; !ok && !slices.Contains(allLeftLocals, name) {
+				rightLocals = append(rightLocals, name)
+			}
+		}
 	}
 	c.binaryPatternWithLocals(
 		pat.Op.Type,
@@ -4178,8 +4193,15 @@ func (c *BytecodeCompiler) binaryPatternWithLocals(opTok token.Type, left func()
 
 func (c *BytecodeCompiler) nilablePattern(node *ast.NilablePatternNode, valType types.Type) {
 	location := node.Location()
-	var locals []string
-	patternLocals(node.Pattern, &locals)
+	var allLocals, locals []string
+	patternLocals(node.Pattern, &allLocals)
+	// variables that have already been bound by an earlier part of the pattern keep their value
+	currentScope := c.scopes.last()
+	for _, name := range allLocals {
+		if _, ok := currentScope.localTable[name]; !ok {
+			locals = append(locals, name)
+		}
+	}
 	c.binaryPatternWithLocals(
 		token.OR_OR,
 		func() {
